@@ -47,7 +47,7 @@ CONFIG = {
                     "text sources contain each leaf label at most once per tree under the namespace's case rule (the "
                     "readers refuse duplicates) and NEXUS TAXA blocks are only read through DataSet.read",
                     "in a namespace that already holds >= 2 taxa with the same label (after 'add' / unify off) any of "
-                    "them is accepted as the image of that label",
+                    "them is accepted as the image of that label, but all references with that label must end on one of them",
                     "DataSet.add of an object of another namespace in attached mode is not documented to coerce it; "
                     "only read/new_*/unify results are required to use the attached namespace"],
 }
@@ -517,10 +517,17 @@ class Interp(object):
                           lambda: "label %r: the source's own Taxon object was put into the namespace instead of a new one" % l)
                         cands = [x[1] for x in grp] + [u for u in (universe or []) if K(u) == k]
                         V(n.label in cands, "label_changed", lambda: "new taxon label %r not among %r" % (n.label, cands))
-                if len(pm) <= 1:
-                    first = grp[0][2]
-                    V(all(x[2] is first for x in grp), "equal_labels_not_unified",
-                      lambda: "slots with equal label key %r ended on %d different taxa" % (k, len(set(id(x[2]) for x in grp))))
+                # documented for unify_taxa_by_label=True: references to distinct Taxon objects with identical labels are
+                # replaced with a reference to a single Taxon object - also when the namespace already holds several
+                # taxa with that label (after 'add' / unify off) and the references are to members of the namespace
+                first = grp[0][2]
+                if len(pm) >= 2:
+                    self.ctx.cls("unify_over_label_with_2+_taxa_in_namespace")
+                    if len(set(id(x[0]) for x in grp if x[0] is not None)) >= 2:
+                        self.ctx.cls("unify_over_label_with_2+_taxa_in_namespace:2+_distinct_references")
+                V(all(x[2] is first for x in grp), "equal_labels_not_unified",
+                  lambda: "slots with equal label key %r ended on %d different taxa (namespace held %d taxa with that label)" % (
+                      k, len(set(id(x[2]) for x in grp)), len(pm)))
             fk = [K(t.label) for t in fresh]
             V(len(set(fk)) == len(fk) and not any(k in prek for k in fk), "duplicate_taxon_created",
               lambda: "new taxa %r added to namespace that had %r" % ([t.label for t in fresh], [t.label for t in pre]))
